@@ -681,14 +681,19 @@ func (gen *Generator) GenerateCallBySymbol(sym *SexpSymbol, args []Sexp, orig Se
 		if err != nil {
 			return err
 		}
-		// to do a tail call
-		// pop off all the extra scopes
-		// then jump to beginning of function
-		for i := 0; i < gen.scopes; i++ {
+		// to do a tail call: resolve the callee and marshal the
+		// arguments while our scopes are still in place, then
+		// pop off all the extra scopes and our own function scope,
+		// and jump to the very beginning of the function so that the
+		// next iteration gets a fresh function scope, exactly like
+		// an ordinary call would. (Rebinding the parameters in the
+		// old scope would be visible to closures and lazy arguments
+		// created by earlier iterations.)
+		gen.AddInstruction(PrepareCallInstr{sym, len(args)})
+		for i := 0; i < gen.scopes+1; i++ {
 			gen.AddInstruction(RemoveScopeInstr{})
 		}
-		gen.AddInstruction(PrepareCallInstr{sym, len(args)})
-		gen.AddInstruction(GotoInstr{1}) // goto 1 instead of 0 to avoid adding a new scope
+		gen.AddInstruction(GotoInstr{0})
 	} else {
 		gen.AddInstruction(CallExprInstr{callee: sym, args: append([]Sexp(nil), args...)})
 	}
